@@ -192,7 +192,7 @@ def _is_persisted_position(body, l):
         for site, rv in _value_defs(body, x):
             if rv["k"] == "call":
                 cn = strip_generics(rv["node"].get("callee") or "")
-                if re.search(r"Option(::<[^>]*>)?::(take|clone|as_ref|as_mut|copied|cloned)$|mem::(take|replace)$", cn) and rv["node"]["args"]:
+                if re.search(r"Option(::<[^>]*>)?::(take|clone|as_ref|as_mut|copied|cloned|filter)$|mem::(take|replace)$", cn) and rv["node"]["args"]:
                     bl = borrowed_local(body, rv["node"]["args"][0])
                     if bl is None:
                         bl = op_local(body.resolve_copy(rv["node"]["args"][0]))
@@ -230,12 +230,20 @@ def exception_class(body, site, kinds):
     # fold of a persisted tail position
     if field in ("cur_block_idx", "cur_block_offset"):
         for T in all_tests(body):
-            if T.kind == "discr" and not T.place["p"]:
-                ty = body.local_ty(T.place["l"])
+            if T.kind != "discr":
+                continue
+            tl = T.place["l"] if not T.place["p"] else None
+            if tl is None and len(T.place["p"]) == 1 and isinstance(T.place["p"][0], dict) and T.place["p"][0].get("o") == "(tuple)":
+                # `if let (Some(tail), Some(idx)) = (stale_tail, sealed_idx)`: the component of a tuple built for the match
+                sd = body.single_def(T.place["l"])
+                if sd and sd[1] == "assign" and sd[2]["rv"]["k"] == "agg" and sd[2]["rv"].get("akind") == "tuple":
+                    tl = op_local(body.resolve_copy(sd[2]["rv"]["ops"][T.place["p"][0]["f"]]))
+            if tl is not None:
+                ty = body.local_ty(tl)
                 e = T.variant_edges.get(1)
                 if not (e and body.edge_guards(e, site.bb)) or not ty.startswith("std::option::Option<"):
                     continue
-                if ty == "std::option::Option<(u64, u64)>" or _is_persisted_position(body, T.place["l"]):
+                if ty == "std::option::Option<(u64, u64)>" or _is_persisted_position(body, tl):
                     return "fold"
     # exhausted-block advance
     if field in ("cur_block_idx", "cur_block_offset"):
